@@ -5,15 +5,25 @@
     ImportError.
  R2 effects: nothing in the call-graph closure of load_module executes, imports, compiles or writes.
  R3 progress: every input-driven loop of the unmarshaller reads from the stream on every iteration path (so iterations
-    are bounded by the remaining bytes); recursion only through r_object, which consumes a byte first."""
+    are bounded by the remaining bytes); recursion only through r_object, which consumes a byte first.
+ R4 header: for every magic of the table, and for probes outside it, every exit of the specialised header path of
+    load_module_from_file_object is a return or `raise ImportError`.
+ R5 fast reader (the dropbox magic 62135 is decoded by xdis.marsh._FastUnmarshaller): the cursor never moves backwards, every
+    primitive that the loops rely on advances it by at least one byte, and every loop calls one on each continuing path.
+ R6 memory: no allocation whose size is an unvalidated count decoded from the file (sequence repetition, sized buffers,
+    materialised ranges, comprehensions that do not read) in any function reachable from load_module."""
 import ast
 
+import itertools
+
+from ..alloc import CountTaint, positive_control
 from ..callgraph import CallGraph
-from ..fold import FuncRef
+from ..fold import ClassRef, FuncRef, Instance
+from ..loadmod import analyse, magic_bytes
 from ..marshal_read import new_instance, robj_hook, unmarshaller
 from ..report import AnalysisError
 from ..repo import enclosing_function, get_repo, norm
-from ..sve import (Cont, Fall, Op, Spec, Sym, flatten_effects, leaves, show)
+from ..sve import (Cont, Fall, Op, Raise, Ret, Spec, Sym, atoms_of, eval_term, flatten_effects, leaves, show)
 from ..tables import tables
 from .marshal_rules import accepted_magics
 
@@ -157,12 +167,317 @@ def inner_guards(guards, tag):
     return out if seen else list(guards)
 
 
+def header_rule(rep, T):
+    m2v = T.magics["magicint2version"]
+    probes = [(mg, magic_bytes(mg)) for mg in sorted(m2v)]
+    known = {b for _, b in probes}
+    ld = get_repo().function("xdis.load.load_module_from_file_object")[1]
+    consts = sorted({c.value for c in ast.walk(ld) if isinstance(c, ast.Constant) and isinstance(c.value, int) and not isinstance(c.value, bool) and 0 <= c.value < 65536})
+    extra = [b"\x00\x00\x00\x00", b"\xff\xff\xff\xff", b"abcd", b"\r\n\r\n", b"\x00\x00\r\n", b"\xff\xff\r\n"]
+    extra += [magic_bytes(c) for c in consts] + [magic_bytes(c)[:2] + b"\x00\x00" for c in consts[:40]]
+    n = 0
+    for b in extra:
+        if b not in known:
+            known.add(b)
+            probes.append((None, b))
+    for mg, b in probes:
+        hs = analyse(T, mg if mg is not None else -1, first4=b)
+        bad = [k for k in hs.leaf_kinds if k not in ("accept", "dropbox", "reject:ImportError")]
+        n += 1
+        lab = "magic=%d" % mg if mg is not None else "first4=%s" % b.hex()
+        rep.ob("R4", "xdis.load.load_module_from_file_object", "%s:exits" % lab, not bad, expected="return, or raise ImportError", derived=hs.leaf_kinds,
+               msg="a file starting with %r leaves the loader through %s" % (b, bad))
+    rep.floor("header configurations (table magics + probes)", n, 230)
+    rep.configurations += n
+
+
+ADVANCING = ("_read1", "_r_short", "_r_long", "_r_long64")
+
+
+def fast_reader_rule(rep, repo, T, cg):
+    F = T.F
+    mm = F.load("xdis.marsh")
+    FU = mm.ns.get("_FastUnmarshaller")
+    if not isinstance(FU, ClassRef):
+        raise AnalysisError("anchor vanished: xdis.marsh._FastUnmarshaller")
+    disp = FU.ns.get("dispatch")
+    if not isinstance(disp, dict) or len(disp) < 15:
+        raise AnalysisError("anchor vanished: _FastUnmarshaller.dispatch")
+    d25 = F.load("xdis.dropbox.decrypt25")
+    fq = "xdis.marsh._FastUnmarshaller"
+    extra_targets = [f.qualname for f in disp.values() if isinstance(f, FuncRef)] + ["xdis.dropbox.decrypt25.load_code"]
+    if fq + ".load" in repo.functions:
+        cg.add_edges(fq + ".load", [q for q in extra_targets if q in repo.functions])
+    reach = cg.reachable(["xdis.dropbox.decrypt25.fix_dropbox_pyc"])
+    rep.floor("functions reachable from fix_dropbox_pyc", len(reach), 25)
+    # ---- (a) every store to the cursor
+    nstores = 0
+    for q in sorted(reach):
+        m, fn = repo.functions[q]
+        stores = [n_ for n_ in ast.walk(fn) if isinstance(n_, (ast.Assign, ast.AugAssign)) and enclosing_function(n_) is fn and
+                  any(isinstance(t, ast.Attribute) and t.attr == "bufpos" for t in (n_.targets if isinstance(n_, ast.Assign) else [n_.target]))]
+        if not stores or fn.name == "__init__":
+            continue
+        rep.analysed(q)
+        for st in stores:
+            nstores += 1
+            text = norm(st)
+            if isinstance(st, ast.AugAssign) and isinstance(st.op, ast.Add) and isinstance(st.value, ast.Constant) and isinstance(st.value.value, int):
+                rep.ob("R5", q, "cursor-store:%s" % text, st.value.value >= 0, expected="advance >= 0", derived=st.value.value, where=repo.where(m, st))
+                continue
+            ok, why = symbolic_monotone(F, FU, q, st) if q.startswith("xdis.marsh.") else (None, "not a fast-reader primitive")
+            if ok is None:
+                ok, why = validated_by_unpack(fn, st)
+            rep.ob("R5", q, "cursor-store:%s" % text, ok, expected="the new position is >= the old one on every path that stores it", derived=why, where=repo.where(m, st),
+                   msg="the read position can move backwards (%s): a negative length field re-reads earlier bytes, so a container loop never reaches end of input" % why)
+    rep.floor("cursor stores in the fast reader", nstores, 3)
+    # ---- (b) the advancing primitives advance
+    for name in ADVANCING:
+        f = mm.ns.get(name)
+        if not isinstance(f, FuncRef):
+            raise AnalysisError("anchor vanished: xdis.marsh.%s" % name)
+        me = Instance(FU)
+        me.attrs.update(bufstr=Sym("buf", "bytes"), bufpos=Sym("p", "int"))
+        sp = Spec(F)
+        out = sp.run(f, [me])
+        adv = None
+        try:
+            adv = eval_term(me.attrs["bufpos"], {"p": 0, repr(Sym("p", "int")): 0})
+        except Exception:
+            pass
+        nonraising = [l for g, l in leaves(out) if not isinstance(l, Raise)]
+        rep.ob("R5", f.qualname, "advances", isinstance(adv, int) and adv >= 1 and bool(nonraising), expected="cursor + k, k >= 1, on every returning path",
+               derived=show(me.attrs["bufpos"]), msg="%s can return without consuming input" % name)
+        rep.analysed(f.qualname)
+    ld = FU.lookup("load")
+    me = Instance(FU)
+    me.attrs.update(bufstr=Sym("buf", "bytes"), bufpos=Sym("p", "int"), _stringtable=Sym("stringtable", "list"), python_version=None)
+    sp = Spec(F, opaque_funcs=set(extra_targets))
+    sp.run(ld, [me])
+    first_store = [e for k, e in flatten_effects(sp.effects) if k in ("store-attr", "call")]
+    kinds = [(k, show(e.args[2]) if k == "store-attr" else str(e.args[0])) for k, e in flatten_effects(sp.effects) if k in ("store-attr", "call")]
+    ok = bool(kinds) and kinds[0] == ("store-attr", "p + 1")
+    rep.ob("R5", ld.qualname, "consumes-a-byte-before-dispatch", ok, expected="bufpos += 1 before the dispatched reader runs", derived=kinds[:3])
+    rep.analysed(ld.qualname)
+    # ---- (c) loops of the dispatch functions of both marsh readers (_FastUnmarshaller: dropbox path; _Unmarshaller: fast_load=True)
+    UM = mm.ns.get("_Unmarshaller")
+    if not isinstance(UM, ClassRef):
+        raise AnalysisError("anchor vanished: xdis.marsh._Unmarshaller")
+    um_prims = ("r_byte", "r_short", "r_long", "r_long64", "load")
+    for name in um_prims:
+        f = UM.lookup(name)
+        if not isinstance(f, FuncRef):
+            raise AnalysisError("anchor vanished: xdis.marsh._Unmarshaller.%s" % name)
+        ok, why = strict_first_read(f.node)
+        rep.ob("R5", f.qualname, "advances", ok, expected="begins with self._read(k), k >= 1, whose result is indexed, passed to Ord() or tested for emptiness (raises at end of input)",
+               derived=why, msg="%s can return at end of input without raising: loops that rely on it do not terminate" % name)
+        rep.analysed(f.qualname)
+    nloops = 0
+    for C, prims in ((FU, ADVANCING), (UM, um_prims)):
+        cq = "xdis.marsh." + C.name
+        dsp = C.ns.get("dispatch")
+        if not isinstance(dsp, dict) or len(dsp) < 15:
+            raise AnalysisError("anchor vanished: %s.dispatch" % cq)
+        funcs = {}
+        for code, f in dsp.items():
+            if isinstance(f, FuncRef):
+                funcs[f.qualname] = f
+        for qn, f in sorted(funcs.items()):
+            cnt = [0]
+
+            def hook(spec, name, fv, args, kw, node, prims=prims, cq=cq):
+                base = name.split(".")[-1]
+                if (base in prims and (name.startswith(cq + ".") or C is FU)) or name == cq + ".load":
+                    cnt[0] += 1
+                    r = Sym("%s#%d" % (base, cnt[0]), "int" if base != "load" else None)
+                    spec.effect("adv", base, r, node=node)
+                    return r
+                if base == "Ord" and args and isinstance(args[0], Sym):
+                    return args[0]
+                if base == "_read" and len(args) >= 1:
+                    cnt[0] += 1
+                    return Sym("rd#%d" % cnt[0], "bytes")
+                return NotImplemented
+            me = Instance(C)
+            me.attrs.update(bufstr=Sym("buf", "bytes"), bufpos=Sym("p", "int"), _stringtable=Sym("stringtable", "list"), python_version=None, _read=Sym("readfunc", "func"))
+            sp = Spec(F, hooks=[hook])
+            sp.run(f, [me])
+            rep.analysed(qn)
+            for k, e in flatten_effects(sp.effects):
+                if k not in ("loop-begin", "loop"):
+                    continue
+                ls = e.args[3]
+                nloops += 1
+                bad = []
+                for g, l in leaves(ls.out):
+                    if not isinstance(l, (Fall, Cont)):
+                        continue
+                    gs = set(repr(x) for x in g)
+                    adv = [x for x in ls.effects if x.kind == "adv" and all(repr(c) in gs for c in inner_guards(x.guards, ls.tag))]
+                    if not adv:
+                        bad.append([show(x) for x in g])
+                rep.ob("R5", qn, "loop(%s):advances-every-iteration" % show(ls.cond)[:40], not bad, expected="a call of %s on every continuing path" % "/".join(prims),
+                       derived=bad or "advances", msg="a loop of the marsh reader can iterate without consuming input")
+    rep.floor("loops in marsh-reader dispatch functions", nloops, 9)
+
+
+def strict_first_read(fn):
+    """the function's first statement reads k >= 1 bytes through self._read and uses the result in a way that raises on a short read"""
+    body = [s for s in fn.body if not (isinstance(s, ast.Expr) and isinstance(s.value, ast.Constant))]
+    if not body:
+        return False, "empty"
+    first = body[0]
+    calls = [c for c in ast.walk(first) if isinstance(c, ast.Call) and norm(c.func) == "self._read"]
+    if not calls:
+        return False, "first statement %r does not read" % norm(first)[:60]
+    c = calls[0]
+    if not (len(c.args) == 1 and isinstance(c.args[0], ast.Constant) and isinstance(c.args[0].value, int) and c.args[0].value >= 1):
+        return False, "reads %s bytes" % norm(c.args[0] if c.args else c)
+    par = None
+    for x in ast.walk(first):
+        if c in list(ast.iter_child_nodes(x)):
+            par = x
+    if isinstance(par, ast.Call) and norm(par.func) in ("Ord", "ord"):
+        return True, "Ord(self._read(%d))" % c.args[0].value
+    if isinstance(first, ast.Assign) and first.value is c and isinstance(first.targets[0], ast.Name):
+        v = first.targets[0].id
+        k = c.args[0].value
+        for s in body[1:3]:
+            if isinstance(s, ast.If) and norm(s.test) == "not %s" % v and s.body and isinstance(s.body[-1], ast.Raise):
+                return True, "if not %s: raise" % v
+        for s in body[1:2 + k]:
+            if isinstance(s, (ast.If, ast.For, ast.While, ast.Try, ast.Return)):
+                break
+            for x in ast.walk(s):
+                if isinstance(x, ast.Subscript) and isinstance(x.value, ast.Name) and x.value.id == v and isinstance(x.slice, ast.Constant) and x.slice.value == k - 1:
+                    return True, "%s[%d] is indexed" % (v, k - 1)
+    return False, "result of the read is not checked"
+
+
+def symbolic_monotone(F, FU, q, st):
+    """decide `new cursor >= old cursor` for the cursor stores of a module-level primitive f(self, *ints) by evaluating the
+    specialiser's own store terms and path conditions on a separating set of integers"""
+    mod, _, name = q.rpartition(".")
+    f = F.load(mod).ns.get(name)
+    if not isinstance(f, FuncRef):
+        return None, "not a module-level function"
+    params = [a.arg for a in f.node.args.args]
+    me = Instance(FU)
+    me.attrs.update(bufstr=Sym("buf", "bytes"), bufpos=Sym("p", "int"))
+    syms = [Sym(a, "int") for a in params[1:]]
+    sp = Spec(F)
+    sp.run(f, [me] + syms)
+    stores = [e for k, e in flatten_effects(sp.effects) if k == "store-attr" and e.args[1] == "bufpos"]
+    if not stores:
+        return None, "no store seen by the specialiser"
+    vals = (-2 ** 31, -5, -1, 0, 1, 7)
+    worst = None
+    for e in stores:
+        terms = list(e.guards) + [e.args[2]]
+        atoms = {}
+        for t in terms:
+            atoms_of(t, atoms)
+        others = sorted(n_ for n_, a in atoms.items() if n_ != "p" and not (isinstance(a, Sym) and a.kind in ("bytes", "stream")))
+        for p0 in (0, 3):
+            for L in (0, 3, 20):
+                for combo in itertools.product(vals, repeat=len(others)):
+                    val = {"p": p0, "len(buf)": L}
+                    val.update(dict(zip(others, combo)))
+                    val_ = LenVal(val, L)
+                    try:
+                        if not all(eval_term(c, val_) for c in e.guards):
+                            continue
+                        new = eval_term(e.args[2], val_)
+                    except Exception as ex:
+                        return None, "store term not evaluable: %s" % ex
+                    if not isinstance(new, int) or new < p0:
+                        worst = "with %s the cursor goes from %d to %r" % (", ".join("%s=%d" % kv for kv in zip(others, combo)), p0, new)
+                        return False, worst
+    return True, "monotone on the separating set %s" % (vals,)
+
+
+class LenVal(dict):
+    """valuation in which len(buf) is an atom"""
+    def __init__(self, d, L):
+        dict.__init__(self, d)
+        self.L = L
+
+    def __contains__(self, k):
+        return dict.__contains__(self, k) or k.startswith("len(")
+
+    def __getitem__(self, k):
+        if dict.__contains__(self, k):
+            return dict.__getitem__(self, k)
+        if k.startswith("len("):
+            return self.L
+        raise KeyError(k)
+
+
+def validated_by_unpack(fn, st):
+    """idiom of decrypt25.load_code:   data = self.bufstr[self.bufpos : self.bufpos + N];  struct.unpack('<%dL' % M, data) with M = N / 4;
+    self.bufpos += N.   struct rejects a negative repeat count and a buffer of the wrong size, so reaching the store implies 0 <= N <= bytes left."""
+    if not (isinstance(st, ast.AugAssign) and isinstance(st.op, ast.Add) and isinstance(st.value, ast.Name)):
+        return False, "the advance is not provably non-negative"
+    N = st.value.id
+    body = [s for s in ast.walk(fn) if isinstance(s, ast.Assign) and s.lineno < st.lineno]
+    sliced = None
+    M = None
+    for s in body:
+        t = s.targets[0]
+        if not isinstance(t, ast.Name):
+            continue
+        v = s.value
+        if isinstance(v, ast.Subscript) and isinstance(v.slice, ast.Slice) and norm(v.value) == "self.bufstr" and v.slice.lower is not None and v.slice.upper is not None \
+                and norm(v.slice.lower) == "self.bufpos" and norm(v.slice.upper) in ("self.bufpos + %s" % N, "%s + self.bufpos" % N):
+            sliced = t.id
+        if isinstance(v, ast.BinOp) and isinstance(v.op, (ast.Div, ast.FloorDiv)) and isinstance(v.left, ast.Name) and v.left.id == N and isinstance(v.right, ast.Constant) and v.right.value == 4:
+            M = t.id
+    unpacked = False
+    for c in ast.walk(fn):
+        if isinstance(c, ast.Call) and norm(c.func) in ("struct.unpack", "unpack") and c.lineno < st.lineno and len(c.args) == 2 and sliced and M:
+            fmt, data = c.args
+            if isinstance(data, ast.Name) and data.id == sliced and isinstance(fmt, ast.BinOp) and isinstance(fmt.op, ast.Mod) and isinstance(fmt.left, ast.Constant) \
+                    and fmt.left.value in ("<%dL", "<%dI", "<%dl", "<%di") and isinstance(fmt.right, ast.Name) and fmt.right.id == M:
+                unpacked = True
+    rebound = any(isinstance(x, ast.Name) and x.id == N and isinstance(x.ctx, ast.Store) and x.lineno > min([s.lineno for s in body if isinstance(s.targets[0], ast.Name) and s.targets[0].id in (sliced, M)] or [0])
+                  and x.lineno < st.lineno for x in ast.walk(fn))
+    if sliced and M and unpacked and not rebound:
+        return True, "validated by struct.unpack('<%%dL' %% (%s/4)) of exactly the bytes skipped" % N
+    return False, "the advance %s is neither a positive constant nor validated" % N
+
+
+def allocation_rule(rep, repo, cg, seen):
+    ctl = positive_control()
+    if ctl != ["comprehension-without-read", "materialised-range", "repeat", "sized-buffer"]:
+        raise AnalysisError("positive control failed for the sized-allocation rule: %s" % ctl)
+    rep.extra["positive_control_sized_allocations"] = ctl
+    nf = ntaint = 0
+    for q in sorted(seen):
+        m, fn = repo.functions[q]
+        ct = CountTaint(fn)
+        nf += 1
+        if ct.tainted:
+            ntaint += 1
+        hits = ct.sinks()
+        for node, kind, text in hits:
+            rep.ob("R6", q, "%s:%s" % (kind, norm(node)[:60]), False, expected="allocation bounded by the bytes actually read", derived=text[:100], where=repo.where(m, node),
+                   msg="memory proportional to a count taken from the file is allocated before any element is read: a few bytes of input can demand gigabytes")
+        if not hits:
+            rep.ob("R6", q, "no-sized-allocation", True, derived="count-tainted names: %s" % sorted(ct.tainted)[:8])
+    rep.floor("functions with a count decoded from the stream", ntaint, 8)
+
+
 def run(rep, tier):
     rep.explanation = ("structural exception-containment analysis of the loader (try/except coverage of every raising operation, frozen table of total "
                        "operations), call-graph closure against a sink list, and per-loop progress analysis of the unmarshaller's one-iteration summaries")
     rep.rule("R1", "after the sanity checks every operation of load_module / load_module_from_file_object that can raise on file content is inside a try whose "
                    "broad handler always raises ImportError, or is a listed total operation; every explicit raise is ImportError")
     rep.rule("R2", "no exec/eval/compile/import/pickle/subprocess/filesystem-write is reachable from load_module")
+    rep.rule("R4", "every exit of the header path of load_module_from_file_object, specialised to each table magic and to probes outside the table, "
+                   "is a return or raise ImportError")
+    rep.rule("R5", "xdis.marsh fast reader (dropbox path): every store to the cursor is monotone; _read1/_r_short/_r_long/_r_long64/load advance by >= 1 byte; "
+                   "every loop of a dispatch function calls one of them on each continuing path")
+    rep.rule("R6", "no function reachable from load_module allocates memory proportional to an unvalidated count decoded from the file without reading per element")
     rep.rule("R3", "every input-driven loop of the unmarshaller performs, on every iteration path, a stream read that fails at EOF; r_object reads a byte before dispatching")
     repo = get_repo()
     T = tables()
@@ -305,6 +620,9 @@ def run(rep, tier):
     ok = first is not None and first[0] == "read" and first[1].args[1] == 1
     rep.ob("R3", ro.qualname, "consumes-a-byte-before-dispatch", ok, expected="fp.read(1) is the first effect", derived=str(first[1])[:100] if first else None)
     rep.analysed(ro.qualname)
+    header_rule(rep, T)
+    fast_reader_rule(rep, repo, T, cg)
+    allocation_rule(rep, repo, cg, seen)
     rep.extra["sinks_reachable"] = nsink
     rep.assumptions = ["the table of total operations in rules/c11.py (each with its reason)", "allocation size of fp.read(n) for hostile n, wall time, recursion depth "
                        "(RecursionError is an Exception and is converted) and crashes inside the built-in marshal on the host fast path are not decided",
